@@ -30,7 +30,7 @@ pub fn parse_total(data: &[u8]) {
     opening_hours::verif_hooks::reset();
     let mut ch = Choices::new(&tail);
     let r = crate::runner::guard(|| {
-        props::c04::exercise(props::c04::Mode::Light, &text, &mut ch, Default::default(), &mut case).map(|_| ())
+        props::c04::exercise(props::c04::Mode::Fuzz, &text, &mut ch, Default::default(), &mut case).map(|_| ())
     });
     match r {
         Ok(Ok(())) => {}
